@@ -80,6 +80,7 @@ pub fn rand_project(r: &mut Rng, round_trip_safe: bool) -> Project {
             1 if !round_trip_safe => words.push((String::new(), "a comment-only line".into())),
             2 => words.push((rand_word(r, &WordCfg::default()), if round_trip_safe { String::new() } else { ["gloss: 'water'", "see note #2", "# doubled marker", "a > e ;; not a rule", "x # y # z"][r.below(5)].into() })),
             3 if !round_trip_safe => words.push((String::new(), "## section heading ##".into())),
+            4 => words.push((format!("{} {}", rand_word(r, &WordCfg::default()), rand_word(r, &WordCfg::default())), String::new())),   // a phrase
             _ => words.push((rand_word(r, &WordCfg::default()), String::new())),
         }
     }
@@ -104,11 +105,14 @@ impl Project {
         self.words.iter().map(|(w, c)| if c.is_empty() { w.clone() } else if w.is_empty() { format!("# {c}") } else { format!("{w}{}# {c}", " ".repeat(r.range(1, 6))) }).collect::<Vec<_>>().join(nl) + if self.words.last().map(|w| w.0.is_empty() && w.1.is_empty()).unwrap_or(false) || r.chance(1, 2) { nl } else { "" } // (a blank last line only exists if it is terminated)
     }
     pub fn alias(&self, r: &mut Rng) -> String {
+        // the two sections in either order, an empty one sometimes left out, comment lines inside a section, LF or CRLF
         let ind = " ".repeat(r.below(6));
         let mut s = String::new();
         if r.chance(1, 3) { s += "# aliases of the project\n" }
-        s += "@into\n"; for a in &self.into { s += &format!("{ind}{a}\n") }
-        s += "@from\n"; for a in &self.from { s += &format!("{ind}{a}\n") }
+        let section = |r: &mut Rng, tag: &str, v: &[String]| -> String { if v.is_empty() && r.chance(1, 2) { return String::new() } let mut t = format!("{tag}\n"); for a in v { if r.chance(1, 8) { t += &format!("{ind}# a note\n") } t += &format!("{ind}{a}\n") } t };
+        let (a, b) = (section(r, "@into", &self.into), section(r, "@from", &self.from));
+        s += &if r.chance(1, 3) { format!("{b}{a}") } else { format!("{a}{b}") };
+        if r.chance(1, 5) { s = s.replace('\n', "\r\n") }
         s
     }
     pub fn json(&self) -> serde_json::Value {
